@@ -37,7 +37,10 @@ INVALID_TEXTS = [
     "def 0 { message_SwitchTalk ($A) { case 1: a(); } end; }",
     "//?: is-ssb-script: true\ndef 0 {\n    a(;\n}\n",
     "//?: is-ssb-script: true\ndef 0 {\n    a();\n    Jump(@nowhere);\n}\n",
+    "//?: is-ssb-script: true\ndef 0 {\n    a();\n    End();\n}\ndef 1 for thing(2) {\n    leaked_op(1);\n    End();\n}\n",
+    "//?: is-ssb-script: true\ndef 0 {\n    @l;\n    a();\n    Move<actor 2>(3, @l);\n}\n",
 ]
+SWITCH_ONLY_SRC = "def 0 {\n    switch ($A) {\n        case 1:\n            a();\n            break;\n        case 2:\n            b();\n            break;\n    }\n    c();\n    end;\n}\n"
 
 
 # ---- inputs ------------------------------------------------------------------------------------------
@@ -137,9 +140,10 @@ def make_pool(pool_seed: int, sizes=("small", "small", "medium", "medium", "larg
                 fam.append(len(docs))
                 docs.append(sib)
         families.append(fam)
-    o = sut.compile_exps(STRINGY_SRC)
-    if "ok" in o:
-        docs.append({"routines": o["ok"]["routines"]})
+    for src_ in (STRINGY_SRC, SWITCH_ONLY_SRC):
+        o = sut.compile_exps(src_)
+        if "ok" in o:
+            docs.append({"routines": o["ok"]["routines"]})
     fam = []
     for d in ssb.second_entry_family():
         fam.append(len(docs))
@@ -165,7 +169,7 @@ def make_pool(pool_seed: int, sizes=("small", "small", "medium", "medium", "larg
                 imps.append(text)
         w.vfs.write(alt, macrolib.render_file(lib, main_macros, imps, w.variant_of, True))
         texts.append({"kind": "exps-imports", "src": None, "file": alt, "lookup": w.lookup})
-    for t in rng.sample(INVALID_TEXTS, 3):
+    for t in rng.sample(INVALID_TEXTS, 4):
         texts.append({"kind": "invalid", "src": t, "file": "/proj/SCRIPT/bad.exps"})
     vfs = w.vfs
     for t in texts:
@@ -176,6 +180,9 @@ def make_pool(pool_seed: int, sizes=("small", "small", "medium", "medium", "larg
         o = sut.decompile_ssbs(copy.deepcopy(d))
         if "ok" in o:
             ssbs.append(o["ok"]["text"])
+    for k_, t_ in enumerate(ssbs[:2]):
+        texts.append({"kind": "ssbscript-marked", "src": sut.MARKER + "\n" + t_, "file": f"/proj/SCRIPT/fallback{k_}.exps"})
+        vfs.write(f"/proj/SCRIPT/fallback{k_}.exps", sut.MARKER + "\n" + t_)
     # the project as it is while somebody is editing it: one imported macro file temporarily imports a file that is gone
     broken = Vfs.load(vfs.dump())
     libs = [p for p in w.files if p != list(w.files)[0]]
@@ -375,7 +382,11 @@ def do_op(P: Proc, op: dict) -> dict:
     if kind == "SC":
         from explorerscript.ssb_script.ssb_converting.ssb_compiler import SsbScriptSsbCompiler
 
-        c = SsbScriptSsbCompiler()
+        slot = op.get("slot")
+        if slot is None:
+            c = SsbScriptSsbCompiler()
+        else:
+            c = P.compilers.setdefault(("ssbs", slot), SsbScriptSsbCompiler())
         try:
             c.compile(pool["ssbs"][op["i"]])
         except Exception as e:
@@ -511,7 +522,7 @@ def gen_history(pool: dict, rng: random.Random, knobs: dict) -> list:
         elif k in ("D", "S", "J") and nd:
             ops.append({"k": k if family is None or k != "S" else "D", "j": pick_doc(), "share": rng.random() < 0.5, "hold": rng.random() < 0.15})
         elif k == "SC" and ns:
-            ops.append({"k": "SC", "i": rng.randrange(ns)})
+            ops.append({"k": "SC", "i": rng.randrange(ns), "slot": rng.choice([None, 0, 0])})
         elif k == "G":
             ops.append({"k": "G"})
         elif k == "R":
@@ -843,7 +854,12 @@ def _aslr_on():
 
 def fresh_item(item: dict) -> dict:
     pool = forkrun(make_pool, item["pool_seed"], timeout=300)
-    op = item["op"]
+    op = dict(item["op"])
+    if "project" in op:
+        proj = [i for i, t in enumerate(pool["texts"]) if t["kind"] == "exps-imports"]
+        if not proj:
+            return {"skipped": True}
+        op["i"] = proj[op.pop("project") % len(proj)]
     if op["k"] == "C" and op["i"] >= len(pool["texts"]):
         return {"skipped": True}
     if op["k"] in ("D", "S", "J") and op["j"] >= len(pool["docs"]):
@@ -880,9 +896,10 @@ def check(rep, tier: str, master: int, only_idx=None) -> None:
     frng = seeds.stream(master, "fresh")
     fresh = []
     for i in range(cfg["fresh"]):
-        op = frng.choice([{"k": "C", "i": frng.randrange(3), "slot": None}, {"k": "D", "j": frng.randrange(3)}, {"k": "D", "j": frng.randrange(3)},
+        op = frng.choice([{"k": "C", "i": frng.randrange(3), "slot": None}, {"k": "C", "project": frng.randrange(3), "slot": None},
+                          {"k": "C", "project": frng.randrange(3), "slot": None}, {"k": "D", "j": frng.randrange(12)}, {"k": "D", "j": frng.randrange(12)},
                           {"k": "S", "j": frng.randrange(3)}, {"k": "J", "j": frng.randrange(3)}])
-        configs = [(frng.choice(["0", "1", str(frng.randrange(2 ** 31))]), frng.random() < 0.5, frng.choice([0, 0, 3, 17]))]
+        configs = [(hs, frng.random() < 0.5, frng.choice([0, 0, 3, 17])) for hs in ("1", str(frng.randrange(2 ** 31)), str(frng.randrange(2 ** 31)))]
         fresh.append({"idx": 10_000 + i, "fresh": True, "pool_seed": items[i % len(items)]["pool_seed"], "op": op, "configs": configs})
     work = items + fresh
     if only_idx is not None:
